@@ -1705,6 +1705,13 @@ def judge_mesh(spec, fmt, eo, lo, route):
 
                 pairs = cKDTree(Vd).query_pairs(2e-8, output_type="ndarray")
                 close[pairs.reshape(-1)] = True
+                # ... also vertices that only become neighbours in the file: pycollada writes '%.7g' and
+                # the loader reads float32 (1.00000012 and 1.0 are one number there) - thorough tier,
+                # false alarm on vertex colours of the special-values class
+                Vq = np.array([[float("%.7g" % x) for x in row] for row in Vd], dtype=np.float64).astype(np.float32).astype(np.float64)
+                if np.isfinite(Vq).all():
+                    pairs = cKDTree(Vq).query_pairs(2e-8, output_type="ndarray")
+                    close[pairs.reshape(-1)] = True
             if close.any():
                 tol = np.where(close[spec.F][:, :, None], np.maximum(tol, 2e-8), tol)
                 near_coincident = forced_process = True
